@@ -516,7 +516,7 @@ DomainNameZonesReverce(uint8_t *dst, const uint8_t *src, size_t name_len) {
 		if (NULL == src_dot_pos) {// точка не найдена, считаем что она в конце строки
 			cp_size = ((name_len - (size_t)(src_pos - src)) + 1);
 			dst_pos -= cp_size;
-			memcpy(dst_pos, src_pos, cp_size);
+			memcpy(dst_pos, src_pos, (cp_size - 1)); /* Last byte = dot, set below. */
 			(*((uint8_t*)(dst_pos + (cp_size - 1)))) = '.';
 			dst[name_len] = 0;
 			return;
